@@ -38,6 +38,7 @@ TARGETS = [
     ("unprepared-inflight", "N_UnpreparedInflight", "PL1", 2, 1, 0),
     ("batch-thrash", "N_BatchThrash", "PS3", 1, 1, 0),
     ("batch-unprepared-cached", "N_BatchThrash", "PS3", 2, 1, 0),
+    ("arity-zero", "N_Arity", "PL8", 2, 0, 0),
     ("arity", "N_Arity", "PL5", 2, 0, 0),
 ]
 
@@ -96,6 +97,7 @@ def _fix(x):
 
 
 QVIA = ["args", "bind", "qbind"]
+ARITY = {"A": 1, "B": 2}   # MCArity of MC_Prepare.tla
 
 
 def translate(plan, steps, name, n, maxlru, uniq, flip=0):
@@ -153,6 +155,10 @@ def variants(plan, steps, name, scenarios, maxlru, uniq):
     scenarios.append(translate(plan, steps, name, len(scenarios) + 1, maxlru, uniq))
     if any(len(p["items"]) > 1 for p in _fix(plan).values()) or any(a["a"] == "PrepFail" for a, _ in steps):
         scenarios.append(translate(plan, steps, name, len(scenarios) + 1, maxlru, uniq, flip=1))
+    # a wrong number of values (incl. none): once for every way values reach a statement
+    if any(it["n"] != ARITY[it["s"]] for p in _fix(plan).values() for it in p["items"]):
+        for fl in (1, 2):
+            scenarios.append(translate(plan, steps, name, len(scenarios) + 1, maxlru, uniq, flip=fl))
 
 
 def _target(ctx, t):
@@ -291,7 +297,7 @@ def run(ctx):
     # ---- 1. everything TLC and the Go compiler can do side by side
     fut_build = pool.submit(vf.build_gotest, ctx, ".", ["common", "c14"])
     # quick tier: the interleaving targets and the batch that meets UNPREPARED; arity is also reached by the walks
-    fut_targets = [pool.submit(_target, ctx, t) for t in (TARGETS[:8] if quick else TARGETS)]
+    fut_targets = [pool.submit(_target, ctx, t) for t in (TARGETS[:9] if quick else TARGETS)]
     fut_walks = [pool.submit(_walks, ctx, lru, uq, nwalk // 2, ctx.seed * 7919 + lru) for lru, uq in ((1, "TRUE"), (2, "FALSE"))]
     fut_models = [pool.submit(_model_pass, ctx, m, 4 if quick else 6, 900 if quick else 3000, "4g" if quick else "6g")
                   for m in models]
